@@ -66,6 +66,7 @@ def plan(tier, seed):
     specs.append({"kind": "entries", "count": 3000 if tier == "quick" else 60000})
     specs.append({"kind": "lists", "count": 800 if tier == "quick" else 20000})
     specs.append({"kind": "systematic"})
+    specs.append({"kind": "after_activity", "count": 40 if tier == "quick" else 1500})
     return specs
 
 
@@ -288,7 +289,56 @@ def run_systematic(spec, rec, lib):
     rec.sample({"systematic": "hostile char x position x length sweep", "chars": len(HOSTILE)})
 
 
+def run_after_activity(spec, rec, lib):
+    """the grammars are functions of the input alone: after keys have been loaded, used for signing and verified in this
+    process, every other spelling of those very keys / signatures is still rejected"""
+    from ..refs import canonjson, ed25519
+
+    rng = random.Random(spec["seed"])
+    C, S, A = lib.common, lib.signing, lib.authentication
+    for n in range(spec["count"]):
+        k = gkeys.key(n % 12) if n < 12 else gkeys.rand_key(rng)
+        # activity: load, sign, verify with the canonical spelling
+        try:
+            C.PublicKey.from_hex(k.hex)
+            priv = C.PrivateKey.from_hex(k.seed.hex())
+            env = S.wrap_as_signable({"n": n})
+            S.sign_signable(env, priv)
+            A.verify_signable(env, [k.hex], 1)
+            sig = env["signatures"][k.hex]["signature"]
+        except Exception:
+            rec.count("activity_failed")
+            continue
+        rec.count("activity_rounds")
+        for base in (k.hex, k.seed.hex()):
+            for sp in gkeys.respellings(base) + [base[:32] + " " + base[32:], base[:2] + "\t" + base[2:], base.upper()[:2] + base[2:]]:
+                for dotted, oracle, kind in STR_FUNCS:
+                    judge(dotted, oracle, kind, sp, rec, lib)
+                for dotted, oracle, kind in LIST_FUNCS:
+                    judge(dotted, oracle, kind, [base, sp], rec, lib)
+                o = boundary.call(lib, C.checkformat_delegation, {"pubkeys": [base, sp], "threshold": 2})
+                rec.case("after|deleg|%s" % boundary.fingerprint(sp))
+                if o.accepted:
+                    rec.violation("one-spelling/checkformat_delegation/accepts-two-spellings-of-one-key-after-activity",
+                                  "delegation listing %r and %r accepted" % (base[:12], sp[:14]), {"kind": "leaf", "fn": "common.checkformat_list_of_hex_keys", "arg": [base, sp], "vkind": "raiser"})
+        # one signer must never meet threshold 2 through a second spelling of its key
+        for sp in (k.hex.upper(), k.hex[:32] + " " + k.hex[32:], " " + k.hex):
+            e2 = {"signatures": {k.hex: dict(env["signatures"][k.hex]), sp: dict(env["signatures"][k.hex])}, "signed": env["signed"]}
+            o = boundary.call(lib, A.verify_signable, e2, [k.hex, sp], 2)
+            rec.case("after|verify2|%s" % boundary.fingerprint(sp))
+            if o.accepted:
+                rec.violation("one-spelling/verify_signable/one-key-counts-twice-under-two-spellings",
+                              "threshold 2 met by one signer filed under %r and %r" % (k.hex[:12], sp[:14]), {"kind": "pair", "arg": sp})
+        for sg in (sig.upper(), sig + "\n", sig[:64] + " " + sig[64:]):
+            for dotted, oracle, kind in STR_FUNCS[4:5]:
+                judge(dotted, oracle, kind, sg, rec, lib)
+            judge("common.is_signature", schema.signature, "pred", {"signature": sg}, rec, lib)
+    rec.sample({"after_activity": "respellings of keys/signatures re-validated after the canonical spelling was loaded, used and verified"})
+
+
 def run_shard(spec, rec, lib):
+    if spec["kind"] == "after_activity":
+        return run_after_activity(spec, rec, lib)
     {"strings": run_strings, "entries": run_entries, "lists": run_lists, "systematic": run_systematic}[spec["kind"]](spec, rec, lib)
 
 
